@@ -180,6 +180,23 @@ func apply(m, pre model, s Step) (sql []string, ws []want, ok bool) {
 			return rebuild(t, plain(t)), ws, true
 		}
 		return []string{fmt.Sprintf("ALTER TABLE `%s` DROP COLUMN `%s`", s.Table, s.Col)}, ws, true
+	case "drop-readd-column": // the pre-existing column (and its data) is dropped, a new column of the same name is added
+		i := has(s.Col)
+		if i == -1 || s.Col == "id" || t.cols[i].virtual || len(plain(t)) <= 1 {
+			return nil, nil, false
+		}
+		if preHas(s.Col) {
+			ws = append(ws, want{"DS103", s.Col, s.Table})
+		}
+		c := t.cols[i]
+		t.cols = append(append(t.cols[:i:i], t.cols[i+1:]...), c)
+		return []string{fmt.Sprintf("ALTER TABLE `%s` DROP COLUMN `%s`", s.Table, s.Col), fmt.Sprintf("ALTER TABLE `%s` ADD COLUMN `%s` text NULL", s.Table, s.Col)}, ws, true
+	case "drop-recreate-table": // the pre-existing table is dropped and a table of the same name is created
+		if pre[s.Table] != nil {
+			ws = append(ws, want{"DS102", s.Table, s.Table})
+		}
+		m[s.Table] = &table{cols: []column{{name: "id"}, {name: "a"}}}
+		return []string{fmt.Sprintf("DROP TABLE `%s`", s.Table), createTable(s.Table, m[s.Table])}, ws, true
 	case "rebuild-keep":
 		return rebuild(t, plain(t)), nil, true
 	case "add-index":
